@@ -116,7 +116,7 @@ Proof.
   destruct (find_client id (ps_clients p)) as [cl|]; [|reflexivity].
   destruct (tc_cached cl) as [c|].
   - destruct (conn_open cs c); [reflexivity|]. rewrite IH. reflexivity.
-  - destruct (existsb _ _); [|reflexivity]. rewrite IH. reflexivity.
+  - destruct (existsb _ _); reflexivity.
 Qed.
 Lemma conn_open_app cs cs' c : conn_open cs c = true -> conn_open (cs ++ cs') c = true.
 Proof. unfold conn_open. rewrite existsb_app. intros ->. reflexivity. Qed.
@@ -127,7 +127,7 @@ Proof.
   destruct (find_client id (ps_clients p)) as [cl|]; [|exact H].
   destruct (tc_cached cl) as [c0|].
   - destruct (conn_open cs c0); [exact H|]. apply IH. exact H.
-  - destruct (existsb _ _); [|exact H]. apply IH. apply conn_open_app. exact H.
+  - destruct (existsb _ _); [|exact H]. cbn [fst snd]. apply conn_open_app. exact H.
 Qed.
 Lemma failover_send_frame li local rs f b p cs w c :
   let r := failover_send li local rs f b p cs w in
